@@ -153,10 +153,36 @@ def rule_mask(ctx):
     x2 = p.func(ENG, '_x2dec')
     rr.instances += 1
     txt = ' '.join(norm_src(n) for n in own_nodes(x2) if isinstance(n, ast.Return))
-    if '(x & ~y) - (y & x)' in txt or '(x & ~y) - (x & y)' in txt:
+    if has('(__x & ~__y) - (__y & __x)', x2) or has(
+            '(__x & ~__y) - (__x & __y)', x2):
         rr.ok("_x2dec decodes two's complement: (x & ~mask) - (x & mask)", ENG)
     else:
-        rr.note('_x2dec return shape not recognised (not checked): %s' % txt[:80])
+        # conditional form: a value with the sign bit set (x >= mask) is
+        # negative: x - 2*mask
+        conds = find('__x - (__y << 1) if ___t else __x', x2) + find(
+            '__x - 2 * __y if ___t else __x', x2) + find(
+            '__x - __y * 2 if ___t else __x', x2)
+        if conds:
+            node, b = conds[0]
+            t = b['___t'][1]
+            good = match('__x >= __y', t, {'__x': b['__x'], '__y': b['__y']}) \
+                is not None or match('__x & __y', t, {
+                    '__x': b['__x'], '__y': b['__y']}) is not None or match(
+                    '__y <= __x', t, {'__x': b['__x'], '__y': b['__y']}) \
+                is not None
+            if good:
+                rr.ok("_x2dec: values with the sign bit set (x >= mask) are "
+                      "decoded as x - 2*mask", ENG)
+            else:
+                rr.fail(key_of(x2, 'sign-bit test'),
+                        "_x2dec treats a value as negative when `%s`; the sign "
+                        "bit is set exactly when x >= mask, so the most "
+                        "negative value (only the sign bit) is decoded as "
+                        "positive" % norm_src(t), file=ENG, function='_x2dec',
+                        line=node.lineno)
+        else:
+            rr.note('_x2dec return shape not recognised (not checked): %s'
+                    % txt[:80])
     d2 = p.func(ENG, '_dec2x')
     rr.instances += 1
     ok = has('-__y <= __x < __y', d2) or has('-__y <= x < __y', d2)
